@@ -9,7 +9,7 @@ FILE_PROPS = {
     "stringpool.rs": ["C01", "C02", "C08", "C09", "C15", "C20"], "table.rs": ["C01", "C02", "C08", "C09", "C13", "C15", "C20"],
     "value.rs": ["C01", "C08", "C20", "C13"], "propset.rs": ["C10", "C01", "C02", "C09", "C15"], "summary.rs": ["C10", "C15"],
     "codepage.rs": ["C14", "C10"], "streamname.rs": ["C11", "C02", "C09", "C20"], "stream.rs": ["C11"],
-    "package.rs": ["C15", "C11", "C01", "C20", "C06", "C09"], "language.rs": ["C17", "C09"], "query.rs": ["C19", "C07", "C09"], "category.rs": ["C07"],
+    "package.rs": ["C15", "C11", "C01", "C20", "C06", "C09", "C08"], "language.rs": ["C17", "C09"], "query.rs": ["C19", "C07", "C09"], "category.rs": ["C07"],
 }
 sd = os.path.abspath(sys.argv[1])
 full = "--full" in sys.argv
